@@ -637,6 +637,7 @@ type payEvent struct {
 	PName     bool       `json:"pname_ok"`
 	PDefs     bool       `json:"pdefs_ok"`
 	PVals     bool       `json:"pvals_same"`
+	Unknown   bool       `json:"unknownrel"` // the payload has a relationship member the schema does not have
 }
 
 type payCase struct {
@@ -647,7 +648,12 @@ type payCase struct {
 	Rels    []relShape        `json:"rels"`
 	Payload string            `json:"payload"`
 	NoID    bool              `json:"noid"` // the payload has no id member (a create request)
+	// UnknownRel: shape of a relationship member "zr" the schema does not have ("" = none)
+	UnknownRel string `json:"unknownrel"`
+	NoDataForm int    `json:"nodataform"` // which members an object without data carries
 }
+
+var noDataForms = []string{`{"links":{"self":"/s"},"meta":{"a":1}}`, `{"links":{"self":"/s"}}`, `{"meta":{"a":1}}`, `{}`}
 
 func renderPayload(c payCase) string {
 	var b strings.Builder
@@ -667,11 +673,15 @@ func renderPayload(c payCase) string {
 		b.WriteByte('}')
 	}
 	var rels []string
-	for _, r := range c.Rels {
+	all := c.Rels
+	if c.UnknownRel != "" {
+		all = append(append([]relShape{}, c.Rels...), relShape{Name: "zr", Shape: c.UnknownRel, Listed: []string{"u"}})
+	}
+	for i, r := range all {
 		switch r.Shape {
 		case "absent":
 		case "nodata":
-			rels = append(rels, fmt.Sprintf(`%q:{"links":{"self":"/s"},"meta":{"a":1}}`, r.Name))
+			rels = append(rels, fmt.Sprintf(`%q:%s`, r.Name, noDataForms[(c.NoDataForm+i)%len(noDataForms)]))
 		case "null":
 			rels = append(rels, fmt.Sprintf(`%q:{"data":null}`, r.Name))
 		case "ident":
@@ -713,7 +723,8 @@ func idsOf(v any) []string {
 }
 
 func runPayload(c payCase) payEvent {
-	ev := payEvent{Ev: "payload", Impl: c.Impl, Present: sortedKeys(c.Attrs), PAttrs: []string{}, PRels: []string{}, WantRels: []string{}}
+	ev := payEvent{Ev: "payload", Impl: c.Impl, Present: sortedKeys(c.Attrs), PAttrs: []string{}, PRels: []string{}, WantRels: []string{},
+		Unknown: c.UnknownRel != ""}
 	schema := akSchema(c.Impl)
 	payload := []byte(renderPayload(c))
 	for _, r := range c.Rels {
@@ -1154,6 +1165,11 @@ func codecOtherModes(mode string, rng *rand.Rand, stt *stats, w *evWriter, n int
 			}
 			if i%3 != 0 || i < 49*8+40 {
 				c.Rels = append(c.Rels, ro2, rm2)
+			}
+			c.NoDataForm = rng.Intn(len(noDataForms))
+			if rng.Intn(8) == 0 {
+				c.UnknownRel = []string{"nodata", "nodata", "null", "ident", "list"}[rng.Intn(5)]
+				stt.class("unknownrel:" + c.UnknownRel)
 			}
 			ev := runPayload(c)
 			stt.Calls += 3
